@@ -3,6 +3,7 @@ package main
 import (
 	"bytes"
 	"math"
+	"math/big"
 	"os"
 	"fmt"
 	"reflect"
@@ -83,7 +84,7 @@ type genParams struct {
 }
 
 const (
-	nInstKinds = 34
+	nInstKinds = 35
 	nTermKinds = 6
 )
 
@@ -183,7 +184,7 @@ func genProgram(r *rng, p genParams) *Prog {
 				add(Step{Op: "attrgroup", K: r.intn(8), A: sel(), B: sel()})
 			}
 		case x < 6:
-			add(Step{Op: "global", K: []int{0, 1, 2, 3, 4, 6, 7}[r.intn(7)], A: sel(), Name: name()})
+			add(Step{Op: "global", K: []int{0, 1, 2, 3, 4, 6, 7, 8, 9}[r.intn(9)], A: sel(), Name: name()})
 		case x < 10:
 			add(Step{Op: "func", K: r.intn(5), A: r.intn(4), B: sel(), C: sel(), D: sel(), Name: name()})
 		case x < 20:
@@ -199,7 +200,11 @@ func genProgram(r *rng, p genParams) *Prog {
 		case x < 88:
 			add(Step{Op: "setop", K: r.intn(6), A: sel(), B: sel(), C: sel(), D: sel(), P: sel()})
 		case x < 92:
-			switch r.intn(5) {
+			switch r.intn(7) {
+			case 5:
+				add(Step{Op: "addclause", K: r.intn(3), A: sel(), B: sel()})
+			case 6:
+				add(Step{Op: "setint", K: r.intn(4), A: sel()})
 			case 0:
 				add(Step{Op: "setinc", K: r.intn(3), A: sel(), B: sel(), C: sel(), D: sel(), P: sel()})
 			case 1:
@@ -225,7 +230,23 @@ func genProgram(r *rng, p genParams) *Prog {
 			}
 		}
 	}
-	if p.Burst {
+	if p.Burst && r.chance(1, 3) {
+		// A burst around ONE identified struct type: make sure there is one, build
+		// things whose type contains it (an array over it, a typedef, an alloca),
+		// then name / rename / grow it; observers look at globals and types.
+		a := sel()
+		pr.Steps = append(pr.Steps, Step{Op: "typedef", K: []int{4, 9, 14}[r.intn(3)], A: a, Name: name()})
+		for i, n := 0, 1+r.intn(3); i < n; i++ {
+			pr.Steps = append(pr.Steps, Step{Op: "global", K: 8, A: a, Name: name()})
+		}
+		for i, n := 0, 2+r.intn(4); i < n; i++ {
+			pr.Steps = append(pr.Steps, Step{Op: "settype", K: r.intn(3), A: a, B: sel()})
+			if r.chance(1, 3) {
+				pr.Steps = append(pr.Steps, Step{Op: "global", K: 8, A: a, Name: name()})
+			}
+		}
+		pr.Focus = []int{-1, a, 0}
+	} else if p.Burst {
 		// A burst of edits that all aim at one instruction (none of them changes
 		// the shape of the function, so the selectors keep meaning the same
 		// instruction): operand replacements, incoming-edge replacements, renames.
@@ -304,6 +325,8 @@ var (
 	tPair  = types.NewStruct(types.I32, types.I1)
 	tVec   = types.NewVector(2, types.I32)
 	tPPair = types.NewPointer(tPair)
+	// { i8*, i32 }: the usual result type of a landing pad.
+	tLPad = types.NewStruct(types.NewPointer(types.I8), types.I32)
 )
 
 func retType(k int) types.Type {
@@ -718,6 +741,10 @@ func (mc *machine) newInst(f *mfunc, k, c, d int) ir.Instruction {
 		x := mc.pick(f, tI32, c)
 		in = ir.NewInstFreeze(x)
 		mc.use(in, x)
+	case 34:
+		// a landing pad that has no clause yet (clauses are appended later)
+		in = ir.NewLandingPad(tLPad)
+		mc.probes["landing pad created without clauses"]++
 	case 32:
 		in = ir.NewAlloca(tPair)
 	case 33:
@@ -809,6 +836,8 @@ func (mc *machine) compatibleCallee(user interface{}, old *ir.Func, pick int) va
 	return cands[pick%len(cands)]
 }
 
+func bigInt(v int64) *big.Int { return big.NewInt(v) }
+
 // fastMathFlags returns a small list of fast-math flags (sometimes with `fast`
 // in the middle or at the end).
 func fastMathFlags(sel int) []enum.FastMathFlag {
@@ -850,6 +879,8 @@ func resultTypeOfKind(in ir.Instruction, k, d int, calleeRet types.Type) types.T
 		return tP8
 	case 25:
 		return tPair
+	case 34:
+		return tLPad
 	case 27:
 		if d%2 == 0 {
 			return tI32
@@ -896,7 +927,23 @@ func (mc *machine) exec1(s Step) bool {
 	case "global":
 		name := mc.uniq(mc.gnames, s.Name)
 		var g *ir.Global
-		switch s.K % 8 {
+		switch s.K % 10 {
+		case 9:
+			// an integer constant large enough to be a candidate for hexadecimal notation
+			big := []int64{1000000, 4294901760, 65536, 4096, 305419896, 2863311530, 1099511627775}
+			g = mc.m.NewGlobalDef(name, constant.NewInt(tI64, big[s.A%len(big)]))
+			mc.probes["large integer constant"]++
+		case 8:
+			// a global whose type is an array or vector over an identified struct type
+			// that may still be named, renamed or grown
+			if len(mc.structs) == 0 {
+				g = mc.m.NewGlobal(name, types.NewArray(2, tPair))
+			} else {
+				st := mc.structs[s.A%len(mc.structs)]
+				g = mc.m.NewGlobal(name, types.NewArray(uint64(1+s.A%3), st))
+			}
+			g.Linkage = enum.LinkageExternal
+			mc.probes["array over an identified struct type"]++
 		case 7:
 			// a float/double/half constant whose value needs more precision than
 			// its type has, or is special (printed in hexadecimal)
@@ -1019,6 +1066,54 @@ func (mc *machine) exec1(s Step) bool {
 			f.f.FuncAttrs = append(f.f.FuncAttrs, def)
 		}
 		mc.probes["attribute group with a hand-chosen ID appended"]++
+		return true
+	case "addclause":
+		// A clause appended to a landing pad of the function.
+		f := mc.fn(s.A)
+		if f == nil {
+			return false
+		}
+		var lps []*ir.InstLandingPad
+		for _, b := range f.f.Blocks {
+			for _, in := range b.Insts {
+				if lp, ok := in.(*ir.InstLandingPad); ok {
+					lps = append(lps, lp)
+				}
+			}
+		}
+		if len(lps) == 0 {
+			return false
+		}
+		lp := lps[s.B%len(lps)]
+		switch s.K % 3 {
+		case 0, 1:
+			lp.Clauses = append(lp.Clauses, ir.NewClause(enum.ClauseTypeCatch, constant.NewNull(tP8)))
+		default:
+			lp.Clauses = append(lp.Clauses, ir.NewClause(enum.ClauseTypeFilter, constant.NewZeroInitializer(types.NewArray(0, tP8))))
+		}
+		mc.probes["clause appended to a landing pad"]++
+		return true
+	case "setint":
+		// The value of an integer initialiser replaced (in place or by a new
+		// big.Int) by another large value.
+		var ints []*constant.Int
+		for _, g := range mc.globals {
+			if ci, ok := g.Init.(*constant.Int); ok && ci.X.BitLen() > 12 {
+				ints = append(ints, ci)
+			}
+		}
+		if len(ints) == 0 {
+			return false
+		}
+		ci := ints[s.A%len(ints)]
+		big := []int64{1000000, 4294901760, 65536, 4096, 305419896, 2863311530}
+		v := big[(s.A/7+s.K)%len(big)]
+		if s.K%2 == 0 {
+			ci.X.SetInt64(v)
+		} else {
+			ci.X = bigInt(v)
+		}
+		mc.probes["integer constant changed after its creation"]++
 		return true
 	case "addparam":
 		// A parameter appended to an existing function through the exported field
